@@ -11,10 +11,12 @@ import (
 	"encoding/json"
 	"errors"
 	"fmt"
+	"hash/crc32"
 	"strings"
 
 	"verif/sim/core"
 	"verif/sim/env"
+	"verif/sim/fam"
 	"verif/sim/ops"
 	"verif/sim/simdrv"
 	"verif/sim/simpool"
@@ -25,6 +27,7 @@ import (
 type Case struct {
 	Op       ops.WOp     `json:"op"`
 	Prepare  bool        `json:"prepare_stmt"`
+	HookWrites bool      `json:"hook_writes,omitempty"` // before-hooks write a marker row through the *gorm.DB they are given
 	ErrClass string      `json:"err_class,omitempty"` // injected errors wrap this well-known error (deadline, canceled, txdone, eof)
 	PoolShim bool        `json:"pool_shim"`      // gorm is opened on a ConnPool wrapper (ConnPoolBeginner path) instead of *sql.DB
 	MaxSites int         `json:"max_sites"`      // 0 = every site
@@ -55,6 +58,7 @@ func (Prop) Gen(r *core.Rand, tier string) interface{} {
 	if r.Chance(50) {
 		c.ErrClass = r.Pick(simdrv.Classes)
 	}
+	c.HookWrites = r.Chance(30)
 	return c
 }
 
@@ -81,6 +85,13 @@ func (Prop) Shrink(ci interface{}) []interface{} {
 		v.MaxSites = 0
 		out = append(out, &v)
 	}
+	if c.HookWrites {
+		v := *c
+		v.HookWrites = false
+		v.Only = nil
+		v.MaxSites = 0
+		out = append(out, &v)
+	}
 	if c.ErrClass != "" {
 		v := *c
 		v.ErrClass = ""
@@ -103,9 +114,31 @@ func (p Prop) exec(c *Case, f *ops.Fault) (*ops.SingleRun, error) {
 	if c.PoolShim {
 		o.WrapPool = func(db *sql.DB, drv *simdrv.Sim) gorm.ConnPool { return simpool.New(db, drv) }
 	}
-	return ops.RunSingle(o, f, nil, func(e *env.Env) ops.Result {
+	return ops.RunSingle(o, f, c.hookAction(), func(e *env.Env) ops.Result {
 		return c.Op.Exec(e.DB)
 	})
+}
+
+// hookAction: with HookWrites, every before-hook writes a marker row through
+// the handle it was given; the row belongs to the operation and must share its fate.
+func (c *Case) hookAction() ops.HookAction {
+	if !c.HookWrites {
+		return nil
+	}
+	occ := map[string]int{}
+	return func(hc fam.HookCall, ev *ops.HookEvent) error {
+		if !strings.HasPrefix(hc.Hook, "Before") || hc.Tx == nil {
+			return nil
+		}
+		// key and text independent of the order in which gorm visits associations
+		k := hc.Model + "-" + hc.Hook
+		occ[k]++
+		id := uint(1000 + crc32.ChecksumIEEE([]byte(k))%1000000*100 + uint32(occ[k]))
+		if err := hc.Tx.Create(&fam.Marker{ID: id, Text: fmt.Sprintf("marker-%s-%d", k, occ[k])}).Error; err != nil {
+			return fmt.Errorf("marker write through the hook's tx failed: %w", err)
+		}
+		return nil
+	}
 }
 
 // execCtx runs the operation from a context-bound handle on the ConnPool shim;
@@ -121,7 +154,7 @@ func (p Prop) execCtx(c *Case, cf *ops.CancelFault) (*ops.SingleRun, []string, e
 		return pool
 	}
 	first := 0
-	sr, err := ops.RunSingle(o, nil, nil, func(e *env.Env) ops.Result {
+	sr, err := ops.RunSingle(o, nil, c.hookAction(), func(e *env.Env) ops.Result {
 		first = pool.Calls()
 		if cf != nil {
 			pool.Cancel = cancel
